@@ -724,6 +724,79 @@ func checkPos(c PosCell, res *result) {
 	}
 }
 
+// checkPosUnnamed: name lists with a slot that has no name ("" or "-": such an argument cannot be given by key).  The exact
+// length rule of the array form is about the n arguments, not about the names that happen to be usable as keys; the object
+// form knows the remaining names only.  (What an array of exactly n elements does in the presence of such a slot is
+// documented nowhere and not judged.)
+func checkPosUnnamed(res *result) {
+	for n := 2; n <= 3; n++ {
+		for at := 0; at < n; at++ {
+			for _, blank := range []string{"-", ""} {
+				in := []reflect.Type{ctxType}
+				names := make([]string, n)
+				for i := 0; i < n; i++ {
+					in = append(in, reflect.TypeOf(int64(0)))
+					names[i] = fmt.Sprintf("p%d", i+1)
+				}
+				names[at] = blank
+				var seen [][]reflect.Value
+				fv := reflect.MakeFunc(reflect.FuncOf(in, []reflect.Type{reflect.TypeOf(0), errType}, false), func(args []reflect.Value) []reflect.Value {
+					seen = append(seen, args[1:])
+					return []reflect.Value{reflect.ValueOf(11), reflect.Zero(errType)}
+				})
+				fi, err := handler.Positional(fv.Interface(), names...)
+				if err != nil {
+					continue // a constructor that refuses such lists is fine
+				}
+				h := fi.Wrap()
+				elems := []string{"41", "42", "43"}[:n]
+				var kv []string
+				for i := 0; i < n; i++ {
+					if i != at {
+						kv = append(kv, fmt.Sprintf("%q:%s", names[i], elems[i]))
+					}
+				}
+				cases := []struct{ params, want string }{
+					{"[" + strings.Join(elems[:n-1], ",") + "]", "invalid"},
+					{"[" + strings.Join(append(append([]string{}, elems...), "44"), ",") + "]", "invalid"},
+					{"[]", "invalid"},
+					{"[null]", map[bool]string{true: "invalid", false: "invalid"}[n > 1]},
+					{"{" + strings.Join(kv, ",") + "}", "called"},
+					{"{" + strings.Join(append(append([]string{}, kv...), `"-":7`), ",") + "}", "invalid"},
+					{"{}", "called"},
+				}
+				for _, c := range cases {
+					seen = nil
+					_, herr, p := callSafely(h, mkReq(c.params))
+					res.Evaluations++
+					res.Classes["pos/unnamed-slot"]++
+					cell := fmt.Sprintf("Positional names %q", names)
+					switch {
+					case p != nil:
+						res.add("C16", cell, c.params, fmt.Sprintf("wrapper panicked: %v", p))
+					case c.want == "invalid" && (len(seen) != 0 || !isInvalidParams(herr)):
+						res.add("C16", cell, c.params, fmt.Sprintf("err=%v, %d calls; want InvalidParams without a call (%d arguments)", herr, len(seen), n))
+					case c.want == "called":
+						if herr != nil || len(seen) != 1 {
+							res.add("C16", cell, c.params, fmt.Sprintf("err=%v, %d calls; want one call", herr, len(seen)))
+							continue
+						}
+						for i, a := range seen[0] {
+							want := int64(0)
+							if i != at && c.params != "{}" {
+								want = int64(41 + i)
+							}
+							if a.Int() != want {
+								res.add("C16", cell, c.params, fmt.Sprintf("argument %d: got %d, want %d", i+1, a.Int(), want))
+							}
+						}
+					}
+				}
+			}
+		}
+	}
+}
+
 func checkNames(c NamesCell, res *result) {
 	in := []reflect.Type{ctxType}
 	for i := 0; i < c.N; i++ {
@@ -928,6 +1001,7 @@ func TestAdapt(t *testing.T) {
 		}
 		if which == "C16" {
 			checkOverlap("C16", res)
+			checkPosUnnamed(res)
 			for _, c := range tab.Pos {
 				res.Cells++
 				checkPos(c, res)
